@@ -33,6 +33,9 @@ def gen_cases(chk):
         "ts quantization_intervals=32 0 0,0,0,0,64 0 %s %s TT 5 5 1 %s 1" % (dbits(0.5), dbits(1e-3), dbits(-15.5)),   # error exactly (cap-1)*e
         "ts quantization_intervals=32 1 0,0,0,0,64 0 %s %s TT 5 5 1 %s 1" % (dbits(0.5), dbits(1e-3), dbits(15.5)),
         "ts - 1 0,0,0,0,3e8 2 %s %s PTSPTSPSS 0 3 c10f %s 2" % (dbits(0.01), dbits(0.01), one),               # double temporal kernel without re-check
+        # verbatim steps of more than a megabyte: the reader's unwrap buffer is sized before the stream header is parsed
+        "ts - 0 0,0,0,0,40000 0 %s %s ST 5 1 6267 %s 1" % (dbits(1e-3), dbits(1e-4), dbits(100.0)),
+        "ts - 1 0,0,0,0,20000 0 %s %s ST 5 1 6267 %s 1" % (dbits(1e-3), dbits(1e-4), dbits(100.0)),
     ]
     # bounds of a few ulps of the values: the machine-epsilon re-check of the kernels rejects codes, on snapshot and temporal steps
     for ty, bounds in ((0, (2.3e-4, 4.1e-4, 1e-4)), (1, (4.3e-13, 2.0e-13))):
